@@ -75,6 +75,7 @@ Definition x_C06_ok (v : val) : val :=
   vbool (ok_case k obs dead).
 
 (* is the plan inside the theorem's guard?  (used by the check to label cases) *)
-Definition x_C06_wf (v : val) : val :=
-  let k := dec_case v in
-  vbool ((k_mode k =? 0) && case_wf (k_cd k) (k_clock k) (k_seq0 k) (k_items k) (k_mask k)).
+Definition case_guard (k : c06case) : bool :=
+  if k_mode k =? 0 then case_wf (k_cd k) (k_clock k) (k_seq0 k) (k_items k) (k_mask k)
+  else forallb (titem_ok (k_cd k)) (k_items k) && (total_dpk (k_cd k) (k_items k) <=? 65536).
+Definition x_C06_wf (v : val) : val := vbool (case_guard (dec_case v)).
